@@ -7,6 +7,7 @@ import RoModel.DriverCore
 import RoModel.Drivers.Op
 import RoModel.Drivers.Chain
 import RoModel.Drivers.Cancel
+import RoModel.Drivers.NilObs
 import RoModel.Drivers.Overlap
 import RoModel.Drivers.Timed
 import RoModel.Drivers.Plugin
@@ -39,6 +40,7 @@ def handlers : List (String × (Case → String)) := [
   ("overlap2", Drivers.Overlap.run2),
   ("subjoverlap", Drivers.Overlap.runSubj),
   ("leak", Drivers.Cancel.runLeak),
+  ("nilobs", Drivers.NilObs.run),
   ("nextret", Drivers.Cancel.runNextRet),
   ("ctxpair", Drivers.Cancel.runCtxPair),
   ("lateuse", Drivers.Cancel.runLateUse),
